@@ -277,10 +277,8 @@ int main(void) {
 #endif
       if (sigsetjmp(guard_jmp, 1) == 0) {
         guard_armed = 1;
-        TSRange *o = ts_malloc((no ? no : 1) * sizeof(TSRange)), *w = ts_malloc((nn ? nn : 1) * sizeof(TSRange));
-        // the arrays have EXACTLY no / nn elements when non-empty (the block ends with the last element)
-        if (no) { ts_free(o); o = ts_malloc(no * sizeof(TSRange)); }
-        if (nn) { ts_free(w); w = ts_malloc(nn * sizeof(TSRange)); }
+        // the arrays have EXACTLY no / nn elements (the block ends with the last element)
+        TSRange *o = ts_malloc(no * sizeof(TSRange)), *w = ts_malloc(nn * sizeof(TSRange)); // zero elements: a block of size 0 in front of the guard page
         for (unsigned i = 0; i < no; i++) o[i] = (TSRange) {{0, v[1 + 2 * i]}, {0, v[2 + 2 * i]}, v[1 + 2 * i], v[2 + 2 * i]};
         for (unsigned i = 0; i < nn; i++) w[i] = (TSRange) {{0, v[2 + 2 * no + 2 * i]}, {0, v[3 + 2 * no + 2 * i]}, v[2 + 2 * no + 2 * i], v[3 + 2 * no + 2 * i]};
         Lexer lxr;
